@@ -26,7 +26,7 @@ var sentinelType = hotline.TranType{0xff, 0xfe}
 func syncOutbox(ts *TS) []hotline.Transaction {
 	ts.Srv.VerifOutbox() <- hotline.Transaction{Type: sentinelType}
 	var acc []hotline.Transaction
-	deadline := time.Now().Add(10 * time.Second)
+	deadline := time.Now().Add(180 * time.Second) // generous: the machine may be heavily loaded; no latency is asserted
 	for {
 		acc = append(acc, ts.TakeOutbox()...)
 		if n := len(acc); n > 0 && acc[n-1].Type == sentinelType {
@@ -61,6 +61,25 @@ func callSync(ts *TS, cc *hotline.ClientConn, t hotline.Transaction) (res, queue
 func disconnectSync(ts *TS, cc *hotline.ClientConn) []hotline.Transaction {
 	cc.Disconnect()
 	return syncOutbox(ts)
+}
+
+// longWait is how long the harness waits for something the server must eventually do.  It is deliberately
+// huge: checks run on a loaded machine and never assert latencies; it only bounds the time spent on a real failure.
+const longWait = 120 * time.Second
+
+// loginWire performs handshake + login over an in-memory connection and waits (long) for the login reply.
+func loginWire(ts *TS, addr, login, password string, extra ...hotline.Field) (*WireClient, error) {
+	c := ts.Connect(addr, nil)
+	c.Conn.Feed(clientHandshake)
+	c.Conn.Feed(encTran(loginTran(1, login, password, extra...)))
+	r, ok := c.ReplyTo(1, longWait)
+	if !ok {
+		return c, fmt.Errorf("no login reply within %v", longWait)
+	}
+	if r.ErrorCode != [4]byte{} {
+		return c, fmt.Errorf("login refused")
+	}
+	return c, nil
 }
 
 // ---------------------------------------------------------------- canonical outputs (same text as Oracle.outStr)
